@@ -36,7 +36,8 @@ ASSUMPTIONS = [
     "for length < data_width only the low `length` bits of the miso register are compared; clock duty is floor/ceil(divider/2); "
     "CS setup/hold of half a clock period is demanded (SPI convention), the class does not document a figure",
     "SPIMaster clk_divider rewritten between transfers is a class of its own (spi_master_divchange)",
-    "SPISlave: oversampling slave behind 2-flop synchronisers: SCK half period >= 4 and CS setup/hold >= 5 system cycles; frames of 1..data_width bits; "
+    "SPISlave: oversampling slave behind 2-flop synchronisers: SCK half period >= 2 system cycles for MOSI capture, framing and length, >= 4 for the "
+    "MISO bits (they leave the slave 3 cycles after the edge), CS setup/hold >= 5 system cycles; frames of 1..data_width bits; "
     "MISO is MSB-aligned for shorter frames (not documented, follows from MSB first); the comments on SPISlave.mosi/miso are swapped in the source, "
     "the bench uses the behaviourally obvious direction (miso = word to send, mosi = word received)",
     "I2CMaster: half period = load+1 cycles with load >= 1 (with load=0 SCL toggles every cycle and the core's own 'SDA only when SCL stable' "
